@@ -292,7 +292,7 @@ class C05(DecProp):
 class C13(DecProp):
     id = "C13"
     thm_module = "H263V.Thm.C13"
-    rule = ("PP lines: a generated complete intra picture of every width x height (quick: 1..24 x 1..24; thorough: 1..40 x 1..40, plus the mixed intra generator, plus sizes with one dimension at the top of the 16-bit range) and a random "
+    rule = ("PP lines: a generated complete intra picture of every width x height (quick: 1..24 x 1..24; thorough: 1..40 x 1..40, plus the mixed intra generator, plus sizes with one dimension at the top of the 16-bit range; SZ lines: the plane sizes DecodedPicture::new allocates for sizes up to 2^27 luma samples) and a random "
             "quantizer is decoded by the real H263State; each plane is deblocked with QUANT_TO_STRENGTH[quantizer] and the result converted by yuv420_to_rgba, under "
             "catch_unwind with debug assertions on; outcome, RGBA length and hash compared with the model pipeline.  Non-trivial: the picture decodes and is post-processed; distinct by text.")
 
@@ -301,6 +301,13 @@ class C13(DecProp):
         more = core.gen_lines("intra", rng.randint(1, 10 ** 6), core.q(tier, 150, 3000))
         out += ["PP " + l.split(" ")[1] + " " + l.split(" ")[2][2:] for l in more]
         out += core.gen_lines("edgesizespp", rng.randint(1, 10 ** 6), core.q(tier, 6, 0) if tier == "quick" else 0)
+        # plane sizes alone, for picture sizes no decode case can afford (up to 2^27 luma samples): SZ lines
+        szs = [(8193, 8193), (8194, 8194), (65534, 1025), (65535, 1025), (8192, 8192), (4097, 4097), (11587, 11585), (65535, 2047),
+               (1, 65535), (65535, 1), (2, 2), (1, 1), (3, 5)]
+        for _ in range(core.q(tier, 12, 60)):
+            w = rng.randint(4097, 65535)
+            szs.append((w, rng.randint(1, max(1, (1 << 27) // w))))
+        out += [f"SZ {w} {h}" for (w, h) in szs]
         return out
 
     def compare(self, case, impl, other):
@@ -440,6 +447,15 @@ def long_source_scripts(rng, count):
         consumed = 8 * rng.randint(65537, nb - 40) + (k % 8)
         ops = [f"rd{rng.choice([1, 7, 8, 13])}", f"sk{consumed}", "cm", "rd32", f"pk{rng.choice([9, 17, 32])}", f"rd{rng.choice([3, 19, 32])}", "cm", "rd16"]
         out.append(f"R 32 {src.hex()} {';'.join(ops)}")
+    # failing transactions, look-aheads and `none` unions that span many bytes (5 KB .. 66 KB) before they roll back
+    for k in range(count):
+        span = [5000, 9000, 20000, 40000, 66000][k % 5] + rng.randint(0, 300)
+        nb = span + rng.randint(600, 3000)
+        src = bytes(rng.randint(0, 255) for _ in range(nb))
+        big = 8 * span + (k % 8)
+        ops = [f"rd{rng.choice([1, 5, 8, 13])}", f"tx(sk{big};rd9)fail", "rd16", f"la(sk{big};rd7)", "rd9",
+               f"tu(sk{big};rd3)none", "rd32", f"tx(sk{big};rd11)ok", "rd8", "cm", "rd24"]
+        out.append(f"R 32 {src.hex()} {';'.join(ops)}")
     return out
 
 
@@ -487,7 +503,7 @@ class C14(Prop):
             "with_transaction (ok, fail), with_transaction_union (some, none, fail) and with_lookahead up to depth 2; widths 0..65) over sources of 0..12 bytes (random, sparse with planted "
             "start codes at every phase, all-zero runs) for result types u8/u16/u32/u64 on the real H263Reader, compared with the concrete reader model and with the specification "
             "machine (a plain bit list).  quick: bounded-exhaustive scripts of <= 2 ops over a width set on 4 sources + 20,000 random scripts; thorough: <= 3 ops + 400,000 random.  "
-            "Long sources (more than 64 KiB consumed, then commit at every bit phase, then further reads).  Non-trivial: an op starts at a non-zero bit phase and some op straddles a byte boundary or the end of data; distinct by text.")
+            "Long sources (more than 64 KiB consumed, then commit at every bit phase, then further reads; failing transactions, look-aheads and `none` unions spanning 5 KB .. 66 KB).  Non-trivial: an op starts at a non-zero bit phase and some op straddles a byte boundary or the end of data; distinct by text.")
     assumptions = ["signed reads of width 0 are outside the domain (two's complement of a 0-bit field is undefined; the code computes bits_needed - 1 on a u32)",
                    "`commit` inside an open transaction invalidates the checkpoint (documented precondition of rollback): scripts commit only at top level",
                    "a bare failed read_vlc keeps the bits it consumed (documented: position undefined); inside a combinator the position is restored"]
